@@ -296,7 +296,7 @@ impl UserFunction for TestFn {
         {
             let mut l = self.log.lock().unwrap();
             prior = l.iter().filter(|c| c.name == self.model.name).count();
-            l.push(Call { name: self.model.name.to_string(), arg: format!("{params:?}") });
+            l.push(Call { name: self.model.name.to_string(), arg: canon(&params) });
         }
         if self.model.name == "boom_ctx" {
             // a failure with a context layer: the outcome must carry the same chain, not a flattened copy
@@ -542,6 +542,8 @@ fn family_ruleset() {
         // None as an argument and as a (cached) result; a cacheable identity
         call("id", v(Value::None)), call("id", v(1)), call("count", v(Value::None)), call("count_nc", v(Value::None)), call("get_more", v(Value::None)),
         call("boom_reval", v(1)), Expr::add(call("boom_reval", v(1)), v(1)), call("boom_ctx", v(1)),
+        call("count", v(Value::Decimal(rust_decimal::Decimal::new(1, 0)))), call("count", v(Value::Decimal(rust_decimal::Decimal::new(10, 1)))), call("count", v(1.5)),
+        call("count", v(Value::Decimal(rust_decimal::Decimal::new(15, 1)))), call("count", Expr::Vec(vec![v(2), v(3)])), call("count", Expr::Vec(vec![v(2.0), v(3)])), call("count", v(true)), call("count", v("true")),
         // the same call twice within ONE rule (list items, operands), long multi-byte arguments, a symbol named like an input field
         Expr::Vec(vec![call("count_nc", v(1)), call("count_nc", v(1))]), Expr::add(call("count_nc", v(1)), call("count_nc", v(1))),
         Expr::Vec(vec![call("count", v(1)), call("count", v(1)), call("count_nc", v(1)), call("count", v(1))]),
@@ -728,7 +730,7 @@ fn family_builder() {
         let rs = mk().with_rule(sym_rule.clone()).unwrap().build();
         let os = block_on(rs.evaluate_value(&Value::None)).unwrap();
         if !matches!(&os[0].value, Ok(Value::Int(i)) if *i == want) {
-            rep.fail(&["C15"], "with_symbol.exact", what, &format!("{:?}", os[0].value.as_ref().map_err(classify)), &format!("Ok(Int({want}))"));
+            rep.fail(&["C15", "C10"], "with_symbol.exact", what, &format!("{:?}", os[0].value.as_ref().map_err(classify)), &format!("Ok(Int({want}))"));
         }
     }
     rep.finish();
@@ -929,6 +931,9 @@ mod ser_cases {
     #[derive(Serialize)] pub struct Inner { pub x: f64, pub e: En }
     #[derive(Serialize)] pub enum En { U, N(u16), T(u8, bool), S { k: i8 } }
     #[derive(Serialize)] pub struct Big { pub v: u128 }
+    #[derive(Serialize, PartialEq, Eq, PartialOrd, Ord)] pub enum Color { Red, Green }
+    #[derive(Serialize)] pub struct One<U>(pub f64, #[serde(skip)] pub std::marker::PhantomData<U>);
+    #[derive(Serialize)] pub struct Zero();
     #[derive(Serialize)] pub enum Wrap { O(Option<u8>), U(()), V(Vec<Option<u8>>), E(Vec<u8>), S(Unit) }
     pub struct FailsLong(pub String);
     impl Serialize for FailsLong {
@@ -1025,6 +1030,15 @@ fn family_ser() {
     case!("duplicate key via serialize_key/value", DupKeysSplit, Ok(map(vec![("k", Value::Int(2))])));
     case!("flattened struct overridden by outer field", Over { base: Base { retries: 1, name: "n".into() }, retries: 5 },
           Ok(map(vec![("name", Value::String("n".into())), ("retries", Value::Int(5))])));
+    // map keys: only strings (unit enum variants, chars, numbers, bools are "unsupported map key" errors, never renamed or merged)
+    case!("map keyed by unit variants", [(Color::Red, 1u8), (Color::Green, 2u8)].into_iter().collect::<BTreeMap<Color, u8>>(), Err(()));
+    case!("map keyed by chars", [('a', 1u8)].into_iter().collect::<BTreeMap<char, u8>>(), Err(()));
+    case!("map keyed by bools", [(true, 1u8)].into_iter().collect::<BTreeMap<bool, u8>>(), Err(()));
+    // tuple structs are ordered lists whatever their length (one element is still a list, not the bare element)
+    case!("tuple struct of one (skipped second field)", One::<u8>(1.5, std::marker::PhantomData), Ok(Value::Vec(vec![Value::Float(1.5)])));
+    case!("tuple struct of none", Zero(), Ok(Value::Vec(vec![])));
+    case!("tuple of one", (7u8,), Ok(Value::Vec(vec![Value::Int(7)])));
+    case!("array of one", [7u8], Ok(Value::Vec(vec![Value::Int(7)])));
     // enum variants are tagged by name whatever the payload is (a payload that is none / empty is still a payload)
     case!("newtype variant of None", Wrap::O(None), Ok(map(vec![("O", Value::None)])));
     case!("newtype variant of Some", Wrap::O(Some(3)), Ok(map(vec![("O", Value::Int(3))])));
@@ -1203,7 +1217,7 @@ fn raw_binary(name: &str, l: Expr, r: Expr) -> Expr {
 fn text_tags(top: &str) -> Vec<&'static str> {
     match top {
         "not" | "and" | "or" => vec!["C02", "C03", "C04"],
-        "eq" | "neq" | "gt" | "gte" | "lt" | "lte" | "some" | "none" => vec!["C02", "C04"],
+        "eq" | "neq" | "gt" | "gte" | "lt" | "lte" | "some" | "none" | "contains" => vec!["C02", "C04"],
         "iif" => vec!["C02", "C05", "C03", "C04"],
         "int" | "float" | "dec" | "datetime" | "duration" => vec!["C02", "C01"],
         "index" | "ref" | "symbol" => vec!["C10"],
@@ -1243,6 +1257,7 @@ fn family_text() {
     let mut fm = BTreeMap::new();
     fm.insert("x".to_string(), Value::Int(5));
     fm.insert("n".to_string(), Value::None);
+    fm.insert("2024".to_string(), Value::Int(24));
     let mut inner = BTreeMap::new();
     inner.insert("id".to_string(), Value::Int(1));
     fm.insert("facts".to_string(), Value::Map(inner));
@@ -1299,6 +1314,10 @@ fn family_text() {
         (Expr::index(Expr::reff("facts"), Index::Map("facts".into())), Expr::Index(bx(Expr::Reference("facts".into())), Index::Map("facts".into())), "index"),
         (Expr::index(Expr::Vec(two_probes()), Index::Vec(1)), Expr::Index(bx(Expr::Vec(two_probes())), Index::Vec(1)), "index"),
         (Expr::index(Expr::Vec(two_probes()), Index::Vec(7)), Expr::Index(bx(Expr::Vec(two_probes())), Index::Vec(7)), "index"),
+        (Expr::index(Expr::reff("facts"), Index::from("2024")), Expr::Index(bx(Expr::Reference("facts".into())), Index::Map("2024".into())), "index"),
+        (Expr::index(Expr::reff("facts"), Index::from("0".to_string())), Expr::Index(bx(Expr::Reference("facts".into())), Index::Map("0".into())), "index"),
+        (Expr::index(Expr::Vec(two_probes()), Index::from("0")), Expr::Index(bx(Expr::Vec(two_probes())), Index::Map("0".into())), "index"),
+        (Expr::index(Expr::Vec(two_probes()), Index::from(0usize)), Expr::Index(bx(Expr::Vec(two_probes())), Index::Vec(0)), "index"),
         (Expr::reff("x"), Expr::Reference("x".into()), "ref"), (Expr::symbol("x"), Expr::Symbol("x".into()), "symbol"),
         (Expr::func("probe", Expr::none_value()), Expr::Function("probe".into(), bx(Expr::Value(Value::None))), "ref"),
     ];
@@ -1335,6 +1354,24 @@ fn family_text() {
         ("n != n", Expr::NotEquals(bx(r("n")), bx(r("n"))), "neq"),
         ("probe(x) == probe(x)", Expr::Equals(bx(p(r("x"))), bx(p(r("x")))), "eq"),
         ("i1 in [i1]", Expr::Contains(bx(Expr::Vec(vec![i(1)])), bx(i(1))), "contains"),
+        ("none in [none]", Expr::Contains(bx(Expr::Vec(vec![Expr::Value(Value::None)])), bx(Expr::Value(Value::None))), "contains"),
+        ("n in [n]", Expr::Contains(bx(Expr::Vec(vec![r("n")])), bx(r("n"))), "contains"),
+        ("[none] contains none", Expr::Contains(bx(Expr::Vec(vec![Expr::Value(Value::None)])), bx(Expr::Value(Value::None))), "contains"),
+        ("[n, x] contains n", Expr::Contains(bx(Expr::Vec(vec![r("n"), r("x")])), bx(r("n"))), "contains"),
+        ("x in [x]", Expr::Contains(bx(Expr::Vec(vec![r("x")])), bx(r("x"))), "contains"),
+        ("probe(x) == none", Expr::Equals(bx(p(r("x"))), bx(Expr::Value(Value::None))), "eq"),
+        ("probe(x) != none", Expr::NotEquals(bx(p(r("x"))), bx(Expr::Value(Value::None))), "neq"),
+        ("(i1 / i0) == none", Expr::Equals(bx(Expr::Div(bx(i(1)), bx(i(0)))), bx(Expr::Value(Value::None))), "eq"),
+        ("none == probe(x)", Expr::Equals(bx(Expr::Value(Value::None)), bx(p(r("x")))), "eq"),
+        ("probe(x) == i5", Expr::Equals(bx(p(r("x"))), bx(i(5))), "eq"),
+        ("i5 == probe(x)", Expr::Equals(bx(i(5)), bx(p(r("x")))), "eq"),
+        ("probe(i1) > probe(i2)", Expr::GreaterThan(bx(p(i(1))), bx(p(i(2)))), "gt"),
+        ("probe(i1) + probe(i2) * probe(i3)", Expr::Add(bx(p(i(1))), bx(Expr::Mult(bx(p(i(2))), bx(p(i(3)))))), "add"),
+        ("--true", Expr::Neg(bx(Expr::Neg(bx(Expr::Value(Value::Bool(true)))))), "neg"),
+        ("duration(i18446744073709551621)", Expr::Duration(bx(i(18446744073709551621))), "duration"),
+        ("datetime(i18446744073709638016)", Expr::DateTime(bx(i(18446744073709638016))), "datetime"),
+        ("f2.5 * i1", Expr::Mult(bx(Expr::Value(Value::Float(2.5))), bx(i(1))), "mult"),
+        ("0xFFFFFFFFFFFFFFFFFFFFFFFFFFFFFFF", i(0xFFFFFFFFFFFFFFFFFFFFFFFFFFFFFFF), "int"),
         ("[probe(i1), probe(i2)].0", Expr::Index(bx(Expr::Vec(vec![p(i(1)), p(i(2))])), Index::Vec(0)), "index"),
         ("{a: probe(i1), b: probe(i2)}.b", Expr::Index(bx(Expr::Map([("a".to_string(), p(i(1))), ("b".to_string(), p(i(2)))].into_iter().collect())), Index::Map("b".into())), "index"),
     ];
